@@ -479,8 +479,33 @@ def field_to_tree(field):
     return tree
 
 
+def plain_field(shape, B, ctx):
+    """A plain python callable (not a tdgl.Parameter) for the applied vector potential."""
+    from tdgl.sources.constant import constant_field_vector_potential
+
+    fu, lu = ctx["field_units"], ctx["length_units"]
+
+    def A(x, y, z):
+        full = constant_field_vector_potential(np.atleast_1d(x), np.atleast_1d(y), np.atleast_1d(z), Bz=float(B), field_units=fu, length_units=lu)
+        if shape == "ok3":
+            return full
+        if shape == "ok2":
+            return full[:, :2]
+        if shape == "col1":
+            return full[:, :1]
+        if shape == "flat":
+            return full[:, 0]
+        if shape == "short":
+            return full[: max(2, len(full) // 2)]
+        raise ValueError(shape)
+
+    return A
+
+
 def build_field(field, ctx):
     """Returns (object handed to the solver, tree or None)."""
+    if field["kind"] == "plain":
+        return plain_field(field["shape"], field["B"], ctx), {"leaf": "const_field", "B": field["B"]}
     gauge = field.get("gauge")
     tree = field_to_tree(field)
     if tree is None:
